@@ -177,8 +177,10 @@ pub fn timeline_case_p(r: &mut Rng, n_peers: usize, minutes: u64, gap_ms: u64, s
                 keep.push(rx);
             }
         }
+        let self_lookup_before = node.actor.verif_lookup(&Id::from(self_id)).is_some();
         node.tick();
         let processed = queue.pop_front();
+        let mut asked: Vec<SocketAddrV4> = Vec::new();
         // requests that reached the peers in this iteration
         let mut pinged: Vec<SocketAddrV4> = Vec::new();
         let listing: Vec<Node> = {
@@ -192,6 +194,11 @@ pub fn timeline_case_p(r: &mut Rng, n_peers: usize, minutes: u64, gap_ms: u64, s
                 Some(q) => q,
                 None => continue,
             };
+            if let RequestTypeSpecific::FindNode(a) = &req.request_type {
+                if a.target == Id::from(self_id) && !asked.contains(&peers[inc.peer].addr) {
+                    asked.push(peers[inc.peer].addr);
+                }
+            }
             if matches!(req.request_type, RequestTypeSpecific::Ping) && !pinged.contains(&peers[inc.peer].addr) {
                 pinged.push(peers[inc.peer].addr);
             }
@@ -209,6 +216,11 @@ pub fn timeline_case_p(r: &mut Rng, n_peers: usize, minutes: u64, gap_ms: u64, s
                     if let MessageType::Request(q) = &m.message_type {
                         if matches!(q.request_type, RequestTypeSpecific::Ping) && !pinged.contains(&v.addr) {
                             pinged.push(v.addr);
+                        }
+                        if let RequestTypeSpecific::FindNode(a) = &q.request_type {
+                            if a.target == Id::from(self_id) && !asked.contains(&v.addr) {
+                                asked.push(v.addr);
+                            }
                         }
                     }
                 }
@@ -236,7 +248,7 @@ pub fn timeline_case_p(r: &mut Rng, n_peers: usize, minutes: u64, gap_ms: u64, s
         }
         prev_table = table_now;
         ticks.push(format!(
-            "{{| k_now := {}; k_in := {}; k_pinged := [{}]; k_table := [{}]; k_signed := [{}]; k_boot_up := {}; k_known_up := {} |}}",
+            "{{| k_now := {}; k_in := {}; k_pinged := [{}]; k_table := [{}]; k_signed := [{}]; k_boot_up := {}; k_known_up := {}; k_asked := [{}]; k_self_lookup := {} |}}",
             z(now as i128),
             match processed {
                 Some(Q::Resp(i)) => format!("(KResp {}%nat)", i),
@@ -247,7 +259,9 @@ pub fn timeline_case_p(r: &mut Rng, n_peers: usize, minutes: u64, gap_ms: u64, s
             table.join(";"),
             signed.join(";"),
             boolean(up[0]),
-            boolean(known_up)
+            boolean(known_up),
+            asked.iter().map(|a| format!("({}, {})", u32::from(*a.ip()), a.port())).collect::<Vec<_>>().join("; "),
+            boolean(self_lookup_before)
         ));
     }
     let _: MessageType;
